@@ -117,6 +117,8 @@ func histFiles(ext string) map[string]string {
 		"repeats" + ext:         "{{ pattern.repeat(n) }}|{{ amount.decimal(sep, places) }}",
 		"args" + ext:            "{{ word.at(-back) }}|{{ shown.then(!muted, \"n/a\") }}|{{ -n }}|{{ word.at(back - 1) }}|{{ [1, 2, 3].slice(-(back), 3) }}|@each(w in [word])@if(!muted){{ w.repeat(-(-back)) }}@end@end",
 		"item" + ext:            "item {{ it.name }}/{{ it.qty }} {{ it }}",
+		"box" + ext:             "{{ {left: -shift, unit: \"px\"}.left }}|{{ [-shift, !flag, -1] }}|{{ {a: {b: -shift}}.a.b }}|@each(k in [1, 2]){{ {v: -k, w: !flag}.v }}@end|{{ {on: !flag}.on }}",
+		"ratio" + ext:           "{{ total / count }}",
 		"ruler" + ext:           "@use(\"~main\")@insert(\"title\", \"=\".repeat(width))@insert(\"body\", [\"w\", width.str()].join(\":\"))",
 		"badge" + ext:           "{{ \"admin,editor\".contains(role) ? \"staff\" : \"guest\" }}|{{ [role].contains(\"admin\") ? 1 : 2 }}|@if(\"admin\".contains(role))a@else b@end|{{ true.then(role, 0) }}|{{ role.len() > 5 ? \"long\" : \"short\" }}|{{ \"x\".repeat(role.len()) }}|{{ [1, 2, 3].slice(role.len() - 5).len() }}|@each(k in [1, 2]){{ \"ab\".contains(role.at(k)) ? \"y\" : \"n\" }}@end",
 		"numbers" + ext:         "{{ x.str() }}|{{ x }}|{{ (x * 1.0).str() }}|{{ (0.0 * x).str() }}|{{ [[n, n + 1], [0, 0]] }}|{{ [1, [n], \"s\"] }}|@each(k in [[n], [2]]){{ k }}@end|{{ {a: [n], b: {c: n}} }}|{{ [[]].len() + n }}|{{ [\"a\", [\"b\" + n.str()]] }}",
@@ -208,6 +210,13 @@ func histOps() []histOp {
 		{"String(args, back=3 muted=true)", str("args", func() map[string]any {
 			return map[string]any{"word": "stair", "back": 3, "shown": true, "muted": true, "n": -4}
 		})},
+		// literals whose values are prefix expressions over the data
+		{"String(box, shift=2)", str("box", func() map[string]any { return map[string]any{"shift": 2, "flag": true} })},
+		{"String(box, shift=5)", str("box", func() map[string]any { return map[string]any{"shift": 5, "flag": false} })},
+		// two different faults on one line of one page, written as error pages
+		{"Response(ratio, count=0)", resp("ratio", func() map[string]any { return map[string]any{"total": 6, "count": 0} })},
+		{"Response(ratio, count=\"two\")", resp("ratio", func() map[string]any { return map[string]any{"total": 6, "count": "two"} })},
+		{"Response(ratio, no count)", resp("ratio", func() map[string]any { return map[string]any{"total": 6} })},
 		// insert arguments that are calls on literal receivers with arguments from the data
 		{"String(ruler, width=3)", str("ruler", func() map[string]any { return map[string]any{"width": 3} })},
 		{"String(ruler, width=5)", str("ruler", func() map[string]any { return map[string]any{"width": 5} })},
